@@ -61,7 +61,7 @@ func (t *tracer_IT) CaptureState(env *vm.EVM, pc uint64, op vm.OpCode, gas, cost
 		// the step did not execute
 		if err == vm.ErrOutOfGas {
 			m.OOGFaults++
-			if cost != 0 && cost < starveThreshold {
+			if cost != 0 && cost < m.Starve {
 				m.Starved = true
 			}
 		}
@@ -243,6 +243,7 @@ type run_IT struct {
 func start_IT(c *sideCtx_IT, k *txCase, workLimit uint64, rec *[]stepRec) *run_IT {
 	out := &outcome{w: newWritten()}
 	out.Meter.Limit = workLimit
+	out.Meter.Starve = k.gas() - k.workLimit()
 	r := &run_IT{out: out}
 	b, err := c.base(k)
 	var inner *state.StateDB
@@ -268,13 +269,13 @@ func start_IT(c *sideCtx_IT, k *txCase, workLimit uint64, rec *[]stepRec) *run_I
 	sdb := &recDB_IT{StateDB: inner, w: out.w}
 	r.sdb = sdb
 	tr := &tracer_IT{m: &out.Meter, rec: rec}
-	evm := vm.NewEVM(context_IT(k), sdb, chainConfig_IT(k.Mode), vmConfig_IT(tr))
+	evm := vm.NewEVM(context_IT(k), sdb, chainConfig_IT(k.Mode), vmConfig_IT(tr, k.gas()))
 	value := new(big.Int).SetUint64(k.Value)
 	var ret []byte
 	if k.Create {
-		ret, _, _, err = evm.Create(vm.AccountRef(origin), k.Input, ampleGas, value)
+		ret, _, _, err = evm.Create(vm.AccountRef(origin), k.Input, k.gas(), value)
 	} else {
-		ret, _, err = evm.Call(vm.AccountRef(origin), common.Address(k.To), k.Input, ampleGas, value)
+		ret, _, err = evm.Call(vm.AccountRef(origin), common.Address(k.To), k.Input, k.gas(), value)
 	}
 	r.err = err
 	switch {
